@@ -1514,6 +1514,14 @@ def tr_plaincall(call, model='amr', seed=0):
             return sorted((norm(x) for x in o), key=str)
         if isinstance(o, (list, tuple)):
             return [norm(x) for x in o]
+        if isinstance(o, Model):
+            # a model as an argument: its tables and what it answers about a fixed list of roles and concepts
+            probe_r = [':mod', ':poss', ':ARG0', ':foo', ':location', ':quant', ':domain', ':mod-of', ':foo-of', ':polarity', '']
+            probe_c = ['have-mod-91', 'own-01', 'be-located-at-91', 'foo', 'have-quant-91', None]
+            return {'reifs': sorted(map(str, o.reifications)), 'dereifs': sorted(map(str, o.dereifications)),
+                    'norm': norm(dict(o.normalizations)), 'roles': sorted(map(str, o.roles)),
+                    'reifiable': [bool(o.is_role_reifiable(r)) for r in probe_r], 'has': [bool(o.has_role(r)) for r in probe_r],
+                    'dereifiable': [bool(o.is_concept_dereifiable(x)) for x in probe_c]}
         return o if isinstance(o, (str, int, float, bool)) or o is None else str(o)
     J = lambda x: _json.dumps(norm(x))   # noqa: E731
     roles = [':mod', ':poss', ':ARG0', ':location', ':polarity', ':quant', ':beneficiary', ':time']
@@ -1539,6 +1547,22 @@ def tr_plaincall(call, model='amr', seed=0):
     elif call == 'Model':
         mk = lambda: ({':ARG0': {}, ':mod': {'type': 'general'}}, {':mod-of': ':domain'}, [(':mod', 'have-mod-91', ':ARG1', ':ARG2')])   # noqa: E731
         fn = lambda a: sorted(Model(roles=a[0], normalizations=a[1], reifications=a[2]).reifications)   # noqa: E731
+    elif call.startswith('model:'):
+        # the model itself is an argument of its methods: a query - also one that ends in the documented error - leaves it as it was
+        fresh = lambda: copy.deepcopy(m)                # noqa: E731
+        odd = (rng.choice(['a', 'b']), rng.choice([':foo', ':ARG0', ':polarity', ':instance', ':mod-of-of', '', ':quant-of']), rng.choice(['c', '-', '7']))
+        inst = (rng.choice(['a', '_']), ':instance', rng.choice(['foo', 'have-mod-91', 'own-01', None]))
+        what = call[6:]
+        mk = lambda: (fresh(),)                         # noqa: E731
+        fn = {'reify(no reification)': lambda a: a[0].reify(odd, set(names)),
+              'reify': lambda a: a[0].reify(triple, set(names)),
+              'dereify(not dereifiable)': lambda a: a[0].dereify(inst, (inst[0], ':ARG1', 'x'), (inst[0], ':ARG7', 'y')),
+              'is_role_reifiable': lambda a: a[0].is_role_reifiable(odd[1]),
+              'is_concept_dereifiable': lambda a: a[0].is_concept_dereifiable(inst[2]),
+              'canonicalize_role': lambda a: a[0].canonicalize_role(odd[1]),
+              'invert_role': lambda a: a[0].invert_role(odd[1]),
+              'has_role': lambda a: a[0].has_role(odd[1]),
+              'errors': lambda a: a[0].errors(Graph([odd, inst]))}[what]
     else:
         raise ValueError(call)
     t = {'kind': 'plaincall', 'call': call, 'model': model}
